@@ -34,7 +34,8 @@ Definition tag_C : bytes := [67].
    For a step with two element lvalues of the same variable, "its old value" may be
    read as the value just before each assignment (sequential result) or as the value
    before the command (the second assoc starts from the command's initial container,
-   which is what vars.MakeElement implements): both comply. *)
+   which is what vars.MakeElement implements): both comply.  If the second lvalue
+   fails, the variable may be untouched or hold the first assignment. *)
 Definition after_assoc (old : value) (p : list value) (v : value) (onerr : value) : option value :=
   match nested_assoc old p v with POk nv => Some nv | PErr _ => Some onerr | PUnsup => None end.
 
@@ -47,9 +48,18 @@ Definition spec_after (st : step) (old : value) : option (list value) :=
   | SMulti p1 v1 p2 v2 =>
     match nested_assoc old p1 v1 with
     | POk mid =>
-      match after_assoc mid p2 v2 mid, after_assoc old p2 v2 mid with
-      | Some sequential, Some from_start => Some [sequential; from_start]
-      | _, _ => None
+      match nested_assoc mid p2 v2, nested_assoc old p2 v2 with
+      | PUnsup, _ | _, PUnsup => None
+      | r_seq, r_start =>
+        let ok (r : pres value) := match r with POk nv => [nv] | _ => [] end in
+        let failed (r : pres value) := match r with PErr _ => true | _ => false end in
+        (* the second element assignment (or the evaluation of its lvalue) raises:
+           the reference does not say whether the first one has happened by then;
+           the implementation evaluates both lvalues before either store, so it may
+           leave the variable untouched (failure found while reading the path) or
+           with the first assignment done (failure at the store): both comply *)
+        Some (ok r_seq ++ ok r_start
+              ++ (if failed r_seq || failed r_start then [old; mid] else []))
       end
     | PErr _ => Some [old]
     | PUnsup => None
